@@ -252,9 +252,17 @@ func Run(tier string, seed uint64, rep *evidence.Reporter, deadline time.Time) (
 		famInfo = append(famInfo, info)
 	}
 
+	unreproduced := 0
 	for _, k := range sigOrder {
 		f := bySig[k]
 		n := reproductions(args, f.v, 5)
+		if strings.HasPrefix(f.v.Sig, "crash-on-") && n == 0 {
+			// a worker that died once and survives five fresh executions of the same history was killed
+			// by its environment (out of memory, pids exhausted, signal), not by the history
+			fmt.Fprintf(os.Stderr, "note: worker death on %s not reproduced in 5 runs; not reported\n", f.v.Spec)
+			unreproduced += f.count
+			continue
+		}
 		rep.Report(evidence.Report{Oracle: f.v.Oracle, Sig: f.v.Sig, Detail: fmt.Sprintf("%s (reproduced %d/5)", f.v.Detail, n),
 			Replay: map[string]any{"space": "B", "mode": f.v.Mode, "spec": f.v.Spec, "seed": seed, "reproduced_of_5": n,
 				"how_to_read": "commits separated by '/': p<parents>e<edit-clock entries>c<create-clock entries>s<ops in pack>a<author>k<content slot>; the ref points at the last commit"},
@@ -295,10 +303,11 @@ func Run(tier string, seed uint64, rep *evidence.Reporter, deadline time.Time) (
 		"read_refusals_by_error":         refusals,
 		"distinct_valid_orders":          len(perms),
 		"distinct_valid_orders_not_in_commit_index_order": nonIdentity,
-		"counters":   other,
-		"exhaustive": exhaustive && OnlyFamily == "",
-		"rule":       Rule,
-		"samples":    samples,
+		"worker_deaths_not_reproduced":                    unreproduced,
+		"counters":                                        other,
+		"exhaustive":                                      exhaustive && OnlyFamily == "",
+		"rule":                                            Rule,
+		"samples":                                         samples,
 	}
 	return cov, harnessErr
 }
